@@ -417,6 +417,12 @@ def op_clip(env):
         # for the box denoted by a proper PREFIX of the argument (the pattern stopped matching before the end).
         if form != 'bounds':
             return None
+        from emsarray.cli import utils as cli_utils
+        try:
+            if is_exact_box(cli_utils.geometry_argument(arg), values):
+                return None         # the argument parser of this tree reads the string correctly: not this mechanism
+        except Exception:  # noqa: BLE001
+            return None
         seen = {values}
         for k in range(len(arg) - 1, 0, -1):
             shorter = cliref.parse_bounds(arg[:k])
@@ -676,15 +682,16 @@ def op_user_error(env):
             arg = pick(rng, ['{"type": "Nothing"}', '[1, 2, 3, 4]', '{"a": 1}', '{"type": "Polygon"}'])
         elif kind == 'clip:too-few-numbers':
             arg = ','.join(box_text.split(',')[:3])
+        elif kind == 'clip:missing-input':
+            arg = box_text
         else:
+            assert kind == 'clip:text-after-bounds'
             # a real clip box of this model followed by more text: not four comma separated numbers
             arg = box_text + pick(rng, [',5', ',1.5', 'e1', ' km', 'x', ';', ',', ' 5', ',,'])
             if cliref.parse_bounds(arg) is not None:
                 raise AssertionError('composed non-bounds text is valid: %r' % (arg,))
             mech = 'bounds-regex-unanchored'
         inp = env.inp if kind != 'clip:missing-input' else env.path('no-such-input.nc')
-        if kind == 'clip:missing-input':
-            arg = box_text
         argv = ['clip', inp, arg, out]
     elif kind == 'points:missing-csv':
         argv = ['extract-points', env.inp, env.path('no-such.csv'), out]
